@@ -41,4 +41,6 @@ mod incoming;
 mod server;
 mod server_handle;
 mod shutdown_mode;
+#[cfg(pavex_verif)]
+pub mod verif;
 mod worker;
